@@ -132,6 +132,17 @@ inline Op opParamFromStored(const std::string& grp, const Limits& L) {
     };
     return o;
 }
+// a mandatory POINT/ANALOG parameter replaced by one the header update cannot use (wrong type, no value): the call must be refused as a whole
+inline Op opParamMandatoryBad(const std::string& grp, const std::string& pname, const std::string& how) {
+    Op o; o.name = "paramBad(" + grp + ":" + pname + " as " + how + ")"; o.cls = "param(bad-mandatory)";
+    o.enabled = [grp](const World&, const WSnap& s) { const GSnap* g = s.o.group(grp); return g && !g->params.empty(); };   // (an ANALOG group left empty by the file is not "mandatory")
+    o.apply = [grp, pname, how](World& w, const WSnap&, CallInfo& ci) {
+        ci.kind = K_PARAM_UNTYPED; ci.group = grp; ci.dev = how; Param p(pname);
+        if (how == "int") p.set(5); else if (how == "float") p.set(2.5f); else if (how == "string") p.set(std::string("x")); else if (how == "empty-int") p.set(std::vector<int>() = {}); else p.set(std::vector<float>() = {});
+        ci.givenParam = snapParam(p); w.c->parameter(grp, p);
+    };
+    return o;
+}
 inline Op opLock(const std::string& grp, bool lock) {
     Op o; o.name = std::string(lock ? "lockGroup(" : "unlockGroup(") + grp + ")"; o.cls = lock ? "lockGroup" : "unlockGroup";
     o.enabled = [grp, lock](const World&, const WSnap& s) { const GSnap* g = s.o.group(grp); return !g || g->locked != lock; };
